@@ -214,6 +214,16 @@ func (ex *Exec) callModular(fi *FuncInfo, recv *Value, args []Value, st *State, 
 	for _, m := range con.Modifies {
 		ex.havocModifies(fi, m, st, pre, bind, call)
 	}
+	if !con.checkFrame && !con.Trusted && len(con.Modifies) == 0 {
+		// the callee's frame is neither stated nor checked: everything reachable from its arguments may change
+		ex.note("callee without a checked frame: havoc of everything reachable from its arguments: " + fi.Short)
+		if recv != nil {
+			ex.havocReachable(*recv, st)
+		}
+		for _, a := range args {
+			ex.havocReachable(a, st)
+		}
+	}
 	if con.readsClock {
 		ex.advanceClock(st)
 	}
